@@ -13,6 +13,8 @@ import LA.Proofs.Num
 import LA.Proofs.Tables
 import LA.Model.Flags
 import LA.Props.C20
+import LA.Props.C06
+import LA.Proofs.RuleWire
 
 namespace LA.Rule
 open LA LA.Flags
@@ -174,5 +176,72 @@ theorem C07_watch_form_exact (r : RuleData) (path perm key : Bytes) (h : asFileW
       by_cases h5 : r.fields.length = 2
       · exact Or.inl h5
       · exact Or.inr (h4 h5)
+
+/-- Wire round trip: the library's own decoder (fromWireFormat + fromAuditRuleData, the first half
+of ToCommandLine) inverts its encoder on everything rule.Build produces — list, action, every
+(field, value, operator) triple in order, every string, and the syscall set (as a set; listed
+syscalls come back sorted and de-duplicated). The only loss is the one recorded as
+KF-C07-all-syscalls-listed: a mask whose first 63 words are all ones reads back as "all". -/
+theorem C07_wire_roundtrip (env : Env) (he : EnvOk env) (rule : Rule) (b : Bytes) (h : build env rule = Res.ok b) :
+    ∃ r a r', ruleDataOf env rule = some r ∧ fromWire b = Res.ok a ∧ fromArd a = Res.ok r' ∧
+      r'.flags = r.flags ∧ r'.action = r.action ∧ r'.trips = r.trips ∧ r'.strings = r.strings ∧
+      (r.allSyscalls = true → r'.allSyscalls = true) ∧
+      (r'.allSyscalls = false → ∀ n, n ∈ r'.syscalls ↔ n ∈ r.syscalls) := by
+  obtain ⟨r, hr, hdec, hlen, hcnt⟩ := C06_build_layout env he rule b h
+  have hi := inv_ruleDataOf he hr
+  have hal := aligned_ruleDataOf hr
+  have hcnt' : r.trips.length ≤ 64 := by simpa [RuleData.fields] using hcnt
+  have hw := wordsOk_of_inv hi hcnt'
+  have hblen : b.length < 4294967296 := by
+    have := strings_total_le hi
+    omega
+  have hfw := fromWire_of_decode hdec hblen
+  simp only at hfw
+  -- fromArd on the decoded struct
+  have hdf := decodeFields_ok
+    { flags := r.flags, action := r.action, fieldCount := r.fields.length, mask := maskOf r,
+      fields := padTo 64 r.fields, values := padTo 64 r.values, fieldFlags := padTo 64 r.fieldFlags,
+      bufLen := r.strings.flatten.length, buf := r.strings.flatten }
+    r.trips r.strings 0 []
+    (by intro k t hk; simp only [Nat.zero_add]; exact padTo_getElem? 64 _ k _ (by simp [RuleData.fields, hk]))
+    (by intro k t hk; simp only [Nat.zero_add]; exact padTo_getElem? 64 _ k _ (by simp [RuleData.values, hk]))
+    (by intro k t hk; simp only [Nat.zero_add]; exact padTo_getElem? 64 _ k _ (by simp [RuleData.fieldFlags, hk]))
+    hal (by simp) rfl
+  have hmf : LA.Gen.RuleTables.maxFields = 64 := by decide
+  have hfl : r.fields.length = r.trips.length := by simp [RuleData.fields]
+  have hnot : ¬ r.fields.length > LA.Gen.RuleTables.maxFields := by omega
+  simp only [List.length_nil] at hdf
+  rw [← hfl] at hdf
+  have hfa : fromArd
+      { flags := r.flags, action := r.action, fieldCount := r.fields.length, mask := maskOf r,
+        fields := padTo 64 r.fields, values := padTo 64 r.values, fieldFlags := padTo 64 r.fieldFlags,
+        bufLen := r.strings.flatten.length, buf := r.strings.flatten } =
+      Res.ok { flags := r.flags, action := r.action,
+               allSyscalls := ((maskOf r).take 63).all (· == 0xFFFFFFFF),
+               syscalls := if ((maskOf r).take 63).all (· == 0xFFFFFFFF) then [] else syscallsOfMask (maskOf r),
+               trips := r.trips, strings := r.strings } := by
+    unfold fromArd
+    simp only [hnot, if_false, hdf, bind, Bind.bind, zip_map3]
+  refine ⟨r, _, _, hr, hfw, hfa, rfl, rfl, rfl, rfl, ?_, ?_⟩
+  · intro hall
+    simp [maskOf, hall]
+  · intro hfalse n
+    simp only at hfalse
+    have hall : r.allSyscalls = false := by
+      cases hra : r.allSyscalls with
+      | false => rfl
+      | true => simp [maskOf, hra] at hfalse
+    simp only [hfalse, Bool.false_eq_true, if_false]
+    exact syscalls_of_maskOf r hall hi.syscalls n
+
+/-- non-vacuity of the wire round trip: a rule with a string field, a numeric field, two syscalls. -/
+example : (match build ⟨false, [], []⟩ (.syscall 3 (ofString "exit") (ofString "always")
+    [⟨2, ofString "path", [61], ofString "/etc/passwd"⟩, ⟨2, ofString "pid", [61], ofString "1"⟩] [ofString "2", ofString "59"] [ofString "k"]) with
+    | .ok b => (match fromWire b with
+      | .ok a => (match fromArd a with
+        | .ok r => decide (r.syscalls = [2, 59] ∧ r.strings = [ofString "/etc/passwd", ofString "k"] ∧ r.trips.length = 3)
+        | _ => false)
+      | _ => false)
+    | _ => false) = true := by decide +kernel
 
 end LA.Rule
